@@ -491,7 +491,9 @@ def purge(node: dawgie.pl.dag.Node, target: str, executing: bool = True):
         que.remove(node)
         node.set('status', State.waiting)
 
-    for child in node:
+    # an algorithm that lists one of its own values as input is its own child
+    # in the tree; it is not its own dependent (see Node.iter and Node.locate)
+    for child in filter(lambda c, me=node.tag: c.tag != me, node):
         purge(child, target, executing)
     return
 
